@@ -57,7 +57,19 @@ def text_extract(src):
         full = PREFIX[mac] + name
         members = re.findall(r"(?:tbl->t|ltbl->lt|lt|->lt)\s*\.\s*(\w+)\s*\(", body)
         members += re.findall(r"tbl->t\.(\w+)\(", body)
+        # a range-based for over the table object IS a call of begin() and end()
+        if re.search(r"for\s*\([^;()]*:\s*(?:tbl->t|ltbl->lt|lt)\s*\)", body):
+            members += ["begin", "end"]
         catches = re.findall(r"catch\s*\(\s*([\w:]+)", body)
+        # failure paths that return NULL once the object exists (after the handler that guards its allocation) without freeing it
+        unfreed = 0
+        pn = body.find("new ")
+        if pn >= 0:
+            mc = re.search(r"catch\s*\([^)]*\)\s*\{[^{}]*\}", body[pn:])
+            ready = pn + (mc.end() if mc else 0)
+            for mb in re.finditer(r"\{([^{}]*return\s+NULL\s*;[^{}]*)\}", body[ready:]):
+                if not re.search(r"\bdelete\b", mb.group(1)):
+                    unfreed += 1
         f = {
             "name": full,
             "ret": ret,
@@ -73,6 +85,7 @@ def text_extract(src):
             "freads": len(re.findall(r"\bfread\s*\(", body)),
             "fwrites": len(re.findall(r"\bfwrite\s*\(", body)),
             "null_returns": len(re.findall(r"return\s+NULL\s*;", body)),
+            "unfreed": unfreed,
         }
         funcs.append(f)
     if len(funcs) < 40:
@@ -187,16 +200,17 @@ def main():
            "  freads : Nat",
            "  fwrites : Nat",
            "  nullReturns : Nat",
+           "  unfreedFailures : Nat    -- `return NULL` paths, after the object exists, that do not `delete` it",
            "deriving Repr, DecidableEq", "",
            "def entries : List Entry := ["]
     rows = []
     for f in funcs:
         rows.append("  { name := %s, members := [%s], hasTry := %s, catches := [%s], setsEnomem := %s, failureRet := [%s], resetsLimits := %s, "
-                    "news := %d, deletes := %d, freads := %d, fwrites := %d, nullReturns := %d }" % (
+                    "news := %d, deletes := %d, freads := %d, fwrites := %d, nullReturns := %d, unfreedFailures := %d }" % (
                         lean_str(f["name"]), ", ".join(lean_str(x) for x in f["members"]), "true" if f["has_try"] else "false",
                         ", ".join(lean_str(x) for x in f["catches"]), "true" if f["sets_enomem"] else "false",
                         ", ".join(lean_str(x.strip()) for x in f["failure_ret"]), "true" if f["resets_limits"] else "false",
-                        f["news"], f["deletes"], f["freads"], f["fwrites"], f["null_returns"]))
+                        f["news"], f["deletes"], f["freads"], f["fwrites"], f["null_returns"], f["unfreed"]))
     out.append(",\n".join(rows))
     out += ["]", "", "end Cuckoo.Gen.CApi", ""]
     with open(outp, "w") as fh:
